@@ -672,7 +672,16 @@ def r14(ctx: Ctx):
         if kw is None and len(c.args) > 1:
           kw = c.args[1]
         if not knows:
-          ctx.info(rule, fi, f'{fi.qualname}: number of producers not known in advance (one state per worker that iterated)')
+          cap = kw is not None and any((isinstance(y, ast.Attribute) and y.attr in ('num_workers', 'workers', 'all_workers'))
+                                       or (isinstance(y, ast.Name) and y.id in ('num_workers', 'workers')) for y in ast.walk(kw))
+          if cap:
+            # the converse mistake: demanding one state per worker OF THE POOL
+            ctx.fail(rule, fi, f'{fi.qualname}: the expected number of states is the number of participants, not the pool size',
+                     f'`{unparse(c)[:90]}` expects as many states as the pool has workers: only the workers that actually took'
+                     ' part in the stage return a state (a capped stage, a worker that is busy elsewhere or not alive), so a'
+                     ' fault-free run raises "unexpected number of aggregation states" and delivers no final aggregate', node=c)
+          else:
+            ctx.info(rule, fi, f'{fi.qualname}: number of producers not known in advance (one state per worker that iterated)')
           continue
         if kw is not None and any(isinstance(y, ast.Name) and y.id == 'num_shards' for y in ast.walk(kw)):
           ctx.ok(rule, fi, f'{fi.qualname}: merge armed with the expected number of states', c)
@@ -771,6 +780,8 @@ from mlmverif.selfcheck import B, OK  # noqa: E402
 _T = 'chainables/transform.py'
 _O = 'chainables/orchestrate.py'
 VARIANTS = [
+    B('stage-merge-expects-one-state-per-pool-worker', 'chainables/orchestrate.py',
+      "      agg_state = agg_fn.merge_states(agg_states)\n", "      agg_state = agg_fn.merge_states(\n          agg_states, strict_states_cnt=worker_pool.num_workers\n      )\n", 'R-C16-14'),
     B('remote-batch-from-single-gets', 'chainables/courier_server.py',
       "      result = self._generator.get_batch(batch_size, block=True)", "      result = [self._generator.get() for _ in range(max(batch_size, 1))]", 'R-C16-19'),
     B('every-runner-of-a-chain-drops-its-outputs', 'chainables/transform.py',
